@@ -248,6 +248,34 @@ impl Likely {
         }
     }
 
+    /// the UTS #35 fallback answer in the three cases where the strict cascade finds nothing
+    /// and the property allows either `None` or the fallback (given subtags kept)
+    pub fn fallback(&self, t: Triple) -> Option<Triple> {
+        let keep = |e: &Triple| Triple {
+            l: if t.l != 0 { t.l } else { e.l },
+            s: if t.s != 0 { t.s } else { e.s },
+            r: if t.r != 0 { t.r } else { e.r },
+        };
+        if t.l == 0 && t.s == 0 && t.r == 0 {
+            return self.und.as_ref().map(keep);
+        }
+        if t.l != 0 {
+            if t.s == 0 {
+                return None;
+            }
+            if t.r != 0 {
+                if let Some(e) = self.script_region.get(&(t.s, t.r)) {
+                    return Some(keep(e));
+                }
+            }
+            return self.script_only.get(&t.s).map(keep);
+        }
+        if t.s != 0 && t.r != 0 {
+            return self.region_only.get(&t.r).map(keep);
+        }
+        None
+    }
+
     /// reference minimize (UTS #35 "remove likely subtags" restricted to l/s/r), strict tables
     pub fn strict_min(&self, t: Triple) -> Option<Triple> {
         let max = if t.l != 0 && t.s != 0 && t.r != 0 { t } else { self.strict_max(t)? };
